@@ -6,6 +6,7 @@ import VlsModel.Gen.FnKvvMem
 import VlsModel.Gen.FnKvvTrait
 import VlsModel.Gen.FnPersistMod
 import VlsModel.Lemmas.FnGen
+import VlsModel.Lemmas.SmapSorted
 /-
 C16 — the in-memory store of the model (`KVV.Mem.putV`, `KVV.Mem.put`, `KVV.nextVer`) tied to the bodies of
 `MemoryKVVStore::{put_with_version, get_version, put, get}` that `translate/rs2lean.py` regenerates from
@@ -797,5 +798,41 @@ theorem C16_fn_kvvpersister_signer_id {S F Sid : Type} (ext : S → Sid) (self :
 theorem C16_fn_mem_clear_database (s : Gen.FnKvvMem.MemoryKVVStore) :
     s.clear_database = .ok { s with data := [] } ∧ ∀ k, Rs.smapGet ({ s with data := [] } : Gen.FnKvvMem.MemoryKVVStore).data k = none := by
   exact ⟨rfl, fun k => rfl⟩
+
+/-- `is_in_sync`: true exactly when the local store's last-writer record can be read and equals the given one (`g` = the
+    local store's `get` with `Err` read as `none`: declared rule `b1617_in_sync_match`) -/
+theorem C16_fn_cloud_is_in_sync {L : Type} (cs : CloudKVVStore L) (g : L → String → Option (Option (Nat × List Nat)))
+    (vv : Option (Nat × List Nat)) :
+    cs.is_in_sync g vv = (match g cs.«local» "_WRITER" with | some r => vv == r | none => false) := by
+  unfold CloudKVVStore.is_in_sync
+  cases g cs.«local» "_WRITER" <;> rfl
+
+/-- `reset_versions` (the one operation that lowers versions, for initialising a replica): refused with a panic as soon as
+    the local store carries a last-writer record — i.e. once it is linked to cloud storage no version is ever lowered
+    through the cloud store — and when the record cannot be read; otherwise the local store's `reset_versions` decides -/
+theorem C16_fn_cloud_reset_versions {L : Type} (cs : CloudKVVStore L) (g : L → String → Option (Option (Nat × List Nat)))
+    (ext : L → Rs.M Unit) :
+    cs.reset_versions g ext = (match g cs.«local» "_WRITER" with | some none => ext cs.«local» | _ => .error .panic) := by
+  unfold CloudKVVStore.reset_versions
+  cases h : g cs.«local» "_WRITER" with
+  | none => simp [Rs.unwrap, Rs.panic, bind, Except.bind]
+  | some r => cases r <;> simp [Rs.unwrap, Rs.panic, bind, Except.bind, pure, Except.pure]
+
+/-- `MemoryKVVStore::reset_versions`: never fails; every key keeps its value and reads at version 0 afterwards, no key
+    appears or disappears (for the sorted map a `BTreeMap` is; the `iter_mut` loop is read as rebuilding the map entry
+    by entry: declared rule `b1617_reset_loop`, run against the real store by the translator differential) -/
+theorem C16_fn_mem_reset_versions (s : Gen.FnKvvMem.MemoryKVVStore) (hs : Rs.SSorted s.data) :
+    ∃ s', s.reset_versions = .ok s' ∧ ∀ k, Rs.smapGet s'.data k = (Rs.smapGet s.data k).map (fun r => (0, r.2)) := by
+  refine ⟨_, rfl, ?_⟩
+  intro k
+  have h := Rs.smapGet_insertAll_map_sorted (fun (r : Nat × List Nat) => ((0 : Nat), r.2)) s.data [] k hs
+  have hf : (fun (fresh : List (String × (Nat × List Nat))) (x : String × (Nat × List Nat)) =>
+        match x with
+        | (k, (_ver, value)) => (let fresh := (Rs.smapInsert fresh k (0, value)); fresh))
+      = (fun m e => Rs.smapInsert m e.1 ((fun (r : Nat × List Nat) => ((0 : Nat), r.2)) e.2)) := by
+    funext m ⟨a, b, c⟩; rfl
+  simp only [hf]
+  rw [h]
+  cases Rs.smapGet s.data k <;> simp [Rs.smapGet]
 
 end VlsModel.Props.C16Fn
